@@ -19,7 +19,7 @@ MUT_ATTRS = {"fields", "array", "tangping_elements", "tangping_flag", "value", "
 # read-side in-place updates found by reading, frozen with one line of reason each.  They are design decisions of the code base
 # (the copy is commented out next to them), not write-side transfer functions: key = (function, variable or callee)
 COW_EXCEPTIONS = {
-    ("make_state_index_tangping_and_ensure_not_empty", "new_state"):
+    ("make_state_index_tangping_and_ensure_not_empty", ".tangping_elements"):
         "flattening of an array/object that is read with an unknown index or field; works on the State the index names by design",
     ("make_state_index_tangping_and_ensure_not_empty", "make_state_tangping"):
         "same helper: flattens the State the index names",
@@ -27,7 +27,7 @@ COW_EXCEPTIONS = {
         "read-side lazy materialisation: records a placeholder for a field that has no value yet in the receiver it was read from",
     ("object_call_state", "change_field_read_receiver_state"):
         "read-side lazy materialisation of the called method's field on the receiver",
-    ("slice_read_stmt_state", "new_array_state"):
+    ("slice_read_stmt_state", ".tangping_elements"):
         "slice read with unknown bounds flattens the array in place (create_copy_of_state_and_add_space is commented out in the source)",
     ("slice_read_stmt_state", "make_state_tangping"):
         "same site: the flattened State is the array that was read",
@@ -130,13 +130,13 @@ def run(model: RepoModel, rep, tier: str):
             fi, fs = freshness(f)
             for var, attr, node in mutation_sites(f):
                 n_sites += 1
-                key = f"{f.module.rel}::{f.qualname}::{var}.{attr} written"
+                key = f"{f.module.rel}::{f.qualname}::`{var}.{attr}` written"
                 if var in fs:
                     rep.holds("C09.R1", key, f.module.rel, node.lineno, f"`{var}` is created or copied in this function")
                 elif var in f.params:
                     rep.holds("C09.R1", key, f.module.rel, node.lineno, f"`{var}` is a parameter: obligation moves to the callers (checked below)")
-                elif (f.name, var) in COW_EXCEPTIONS:
-                    rep.holds("C09.R1", key, f.module.rel, node.lineno, "frozen exception: " + COW_EXCEPTIONS[(f.name, var)])
+                elif (f.name, "." + attr) in COW_EXCEPTIONS:
+                    rep.holds("C09.R1", key, f.module.rel, node.lineno, "frozen exception: " + COW_EXCEPTIONS[(f.name, "." + attr)])
                 else:
                     # a State looked up by an index that is not fresh, or taken from in-states
                     src = [n for n in walk_no_nested(f.node) if isinstance(n, (ast.Assign, ast.AnnAssign)) and
@@ -152,7 +152,7 @@ def run(model: RepoModel, rep, tier: str):
                     hf, hp = helpers[n.func.attr]
                     idx = hf.params.index(hp) - 1
                     a = n.args[idx] if idx < len(n.args) else next((k.value for k in n.keywords if k.arg == hp), None)
-                    key = f"{f.module.rel}::{f.qualname}::{n.func.attr}({norm(a) if a is not None else '?'})"
+                    key = f"{f.module.rel}::{f.qualname}::`{n.func.attr}({norm(a) if a is not None else '?'})`"
                     if isinstance(a, ast.Name) and (a.id in fs or a.id in f.params and f.name in helpers and helpers[f.name][1] == a.id):
                         rep.holds("C09.R1", key, f.module.rel, n.lineno, "mutating helper receives a fresh State")
                     elif isinstance(a, ast.Name) and a.id in f.params:
@@ -205,8 +205,12 @@ def run(model: RepoModel, rep, tier: str):
     key = "core/prelim_semantics.py::update_current_state_bit::kill by state id except this statement's own new states"
     if f is None:
         raise AnalysisError("update_current_state_bit vanished")
-    own = any(isinstance(n, ast.If) and "not in new_defined_state_set" in norm(n.test) for n in walk_no_nested(f.node))
-    byid = any(isinstance(n, ast.Assign) and "defined_states[state_id]" in norm(n.value) for n in walk_no_nested(f.node))
+    # by role: a membership test `x not in <parameter>` guarding the collection of the kill set, and a lookup
+    # frame.defined_states[<id>] feeding it
+    own = any(isinstance(n, ast.If) and isinstance(n.test, ast.Compare) and isinstance(n.test.ops[0], ast.NotIn)
+              and isinstance(n.test.comparators[0], ast.Name) and n.test.comparators[0].id in f.params for n in walk_no_nested(f.node))
+    byid = any(isinstance(x, ast.Subscript) and isinstance(x.value, ast.Attribute) and x.value.attr == "defined_states"
+               for n in walk_no_nested(f.node) if isinstance(n, (ast.Assign, ast.For)) for x in ast.walk(n.value if isinstance(n, ast.Assign) else n.iter))
     (rep.holds if own and byid else rep.violation)("C09.R2", key, ps.rel, f.node.lineno,
                                                    "frame.defined_states[state_id] minus the states created in this visit" if own and byid else
                                                    "the state-level kill set is no longer the older copies with the same state id")
@@ -242,21 +246,32 @@ def run(model: RepoModel, rep, tier: str):
                                          "a frame's context is no longer the (caller, call statement, callee) triple")
     gs = model.module("core/global_semantics.py")
     key = "core/global_semantics.py::summary instances saved under the frame's context"
-    ok = any(isinstance(n, ast.Call) and isinstance(n.func, ast.Attribute) and n.func.attr == "save_method_summary_instance" and n.args
-             and isinstance(n.args[0], ast.Name) and n.args[0].id == "context_id" for n in ast.walk(gs.tree)) and \
-        any(isinstance(n, ast.Assign) and isinstance(n.targets[0], ast.Name) and n.targets[0].id == "context_id" and "hash_context()" in norm(n.value) for n in ast.walk(gs.tree))
+    ok = False
+    for fn_ in gs.all_funcs():
+        ctx_vars = {n.targets[0].id for n in walk_no_nested(fn_.node) if isinstance(n, ast.Assign) and isinstance(n.targets[0], ast.Name)
+                    and isinstance(n.value, ast.Call) and isinstance(n.value.func, ast.Attribute) and n.value.func.attr == "hash_context"}
+        if any(isinstance(n, ast.Call) and isinstance(n.func, ast.Attribute) and n.func.attr == "save_method_summary_instance" and n.args
+               and (isinstance(n.args[0], ast.Name) and n.args[0].id in ctx_vars
+                    or isinstance(n.args[0], ast.Call) and isinstance(n.args[0].func, ast.Attribute) and n.args[0].func.attr == "hash_context")
+               for n in walk_no_nested(fn_.node)):
+            ok = True
     (rep.holds if ok else rep.violation)("C09.R3", key, gs.rel, 0,
                                          "context_id = frame.hash_context(); save_method_summary_instance(context_id, summary)" if ok else
                                          "summary instances are not keyed by the frame's call-site context")
     gss = model.module("core/global_stmt_states.py")
     key = "core/global_stmt_states.py::summary instances looked up by the call site being applied"
-    ok = any(isinstance(n, ast.Call) and isinstance(n.func, ast.Attribute) and n.func.attr == "get_method_summary_instance" and n.args
-             and "new_call_site" in norm(n.args[0]) for n in ast.walk(gss.tree))
+    ok = False
+    for fn_ in gss.all_funcs():
+        site_vars = {n.targets[0].id for n in walk_no_nested(fn_.node) if isinstance(n, ast.Assign) and isinstance(n.targets[0], ast.Name)
+                     and isinstance(n.value, ast.Call) and call_name(n.value) == "CallSite" and len(n.value.args) == 3}
+        if any(isinstance(n, ast.Call) and isinstance(n.func, ast.Attribute) and n.func.attr == "get_method_summary_instance" and n.args
+               and any(isinstance(x, ast.Name) and x.id in site_vars for x in ast.walk(n.args[0])) for n in walk_no_nested(fn_.node)):
+            ok = True
     (rep.holds if ok else rep.violation)("C09.R3", key, gss.rel, 0,
                                          "get_method_summary_instance(new_call_site.hash())" if ok else "the callee summary is not fetched by (caller, call statement, callee)")
     # the state-level merge hands out a fresh set (shared with C06.R2)
     from .c06 import check_merge_fresh
-    check_merge_fresh(model, rep, "C09.R2", "collect_in_state_bits", "in_state_bits", "out_state_bits")
+    check_merge_fresh(model, rep, "C09.R2", "collect_in_state_bits", "@returned", "out_state_bits")
     # union over paths / over argument states: shared with C08.R4
     from .c08 import check_accumulating_loops
     check_accumulating_loops(model, rep, "C09.R4")
